@@ -427,7 +427,22 @@ fn aftermath(w: &mut World, typed: &[String], then_new: bool, entropy: u64, tag:
 
 fn limit_program(which: u32, variant: u32) -> (Vec<String>, &'static str, bool) {
     // (program, tag, budget exhaustion also acceptable)
-    match which % 7 {
+    match which % 8 {
+        7 => (
+            // INPUT / PRINT / FN call executed with the stack almost full: must report, never crash
+            vec![
+                "5 GOSUB 10".to_string(),
+                format!("10 D=D+1:IF D<{} THEN GOSUB 10", 65_515 + (variant % 20)),
+                match variant % 3 {
+                    0 => "15 INPUT Z,Z$,Y".to_string(),
+                    1 => "15 DEF FNA(X)=X+1:PRINT FNA(FNA(FNA(1)));1;2;3;4;5;6;7;8;9".to_string(),
+                    _ => "15 FOR I=1 TO 2:FOR J=1 TO 2:FOR K=1 TO 2:READ A,B,C:NEXT:NEXT:NEXT:DATA 1,2,3,4,5,6,7,8,9,1,2,3,4,5,6,7,8,9,1,2,3,4,5,6".to_string(),
+                },
+                "20 END".to_string(),
+            ],
+            "limit:statement-at-full-stack",
+            true,
+        ),
         0 => (
             vec![match variant % 3 {
                 0 => "10 GOSUB 10".to_string(),
@@ -671,11 +686,13 @@ impl Case for C18Case {
                 w.quiet = true;
                 let io = LineIo {
                     max_instr: 8_000_000,
+                    replies: vec!["1".into(), "2,DEEP,3".into(), "4,X,5".into()],
                     ..Default::default()
                 };
                 let o = w.line("RUN", &io);
                 let errors = line_errors(&w, &o);
                 w.stats.bump(match tag {
+                    "limit:statement-at-full-stack" => "c18.limit.statement_at_full_stack",
                     "limit:gosub-recursion" => "c18.limit.gosub_recursion",
                     "limit:fn-recursion" => "c18.limit.fn_recursion",
                     "limit:for-reentered" => "c18.limit.for_reentered",
@@ -689,7 +706,9 @@ impl Case for C18Case {
                     w.stats.bump("c18.oom_reached");
                 }
                 if w.fatal.is_none() {
-                    if !oom && !(budget_ok && o.budget_hit) {
+                    // at the very edge a statement may still fit: ending normally is fine there
+                    let edge_ok = tag == "limit:statement-at-full-stack" && errors.is_empty();
+                    if !oom && !(budget_ok && o.budget_hit) && !edge_ok {
                         fail = Some(Violation {
                             key: format!("C18:{}:no-out-of-memory", tag),
                             detail: format!("expected ?OUT OF MEMORY, got errors {:?}, budget_hit={}, last output {:?}", errors, o.budget_hit, w.tail),
@@ -900,7 +919,7 @@ impl Property for C18 {
             85..=86 => Kind::SelfRestart { variant: rng.below(3) as u32 },
             87..=88 => Kind::RepeatDirect { variant: rng.below(8) as u32 },
             89..=95 => Kind::Limit {
-                which: rng.below(7) as u32,
+                which: rng.below(8) as u32,
                 variant: rng.below(12) as u32,
                 then_new: rng.pct(50),
             },
@@ -928,7 +947,7 @@ impl Property for C18 {
         }
     }
     fn rule(&self) -> &'static str {
-        "one evaluation = (85%) a loop body of 1-4 statement families (PRINT lists, LET with temporaries, SWAP, MID$=, READ+RESTORE, IF/ELSE, ON..GOSUB and ON..GOTO with the selector in and out of range, completed inner FOR / WHILE, GOSUB incl. RETURN out of an open FOR, nested FN calls, INPUT with REDO cycles, DIM+ERASE, forward GOTO, INKEY$) wrapped as FOR / GOTO-counter / WHILE loop, subroutine called in a loop (300 000 iterations; sizes probed at two STOPs 1000 iterations apart, the run is continued to the end when anything grew and in 10% of the cases regardless) or typed as a 70 000-iteration direct-mode loop; (4%) a program restarting itself with RUN from inside GOSUB/FOR 70 000 times, or one direct line typed 70 000 times; (7%) a pool driven past 64K (GOSUB recursion, FN recursion, FOR re-entered, > 65 535 variables / DATA values / opcodes), then canary, listing, NEW or CLEAR and a small program compared with a fresh runtime; (4%) three arrays of 30 001 elements filled and zeroed in turn; distinct = distinct API/event log fingerprint"
+        "one evaluation = (85%) a loop body of 1-4 statement families (PRINT lists, LET with temporaries, SWAP, MID$=, READ+RESTORE, IF/ELSE, ON..GOSUB and ON..GOTO with the selector in and out of range, completed inner FOR / WHILE, GOSUB incl. RETURN out of an open FOR, nested FN calls, INPUT with REDO cycles, DIM+ERASE, forward GOTO, INKEY$) wrapped as FOR / GOTO-counter / WHILE loop, subroutine called in a loop (300 000 iterations; sizes probed at two STOPs 1000 iterations apart, the run is continued to the end when anything grew and in 10% of the cases regardless) or typed as a 70 000-iteration direct-mode loop; (4%) a program restarting itself with RUN from inside GOSUB/FOR 70 000 times, or one direct line typed 70 000 times; (7%) a pool driven past 64K (GOSUB recursion, FN recursion, FOR re-entered, > 65 535 variables / DATA values / opcodes, INPUT / nested FN calls / nested FOR+READ executed with 0-20 free stack slots), then canary, listing, NEW or CLEAR and a small program compared with a fresh runtime; (4%) three arrays of 30 001 elements filled and zeroed in turn; distinct = distinct API/event log fingerprint"
     }
     fn assumptions(&self) -> Vec<&'static str> {
         vec![
@@ -952,6 +971,7 @@ impl Property for C18 {
             "c18.limit.data",
             "c18.limit.code",
             "c18.limit.variables_then_zero",
+            "c18.limit.statement_at_full_stack",
             "c18.oom_reached",
             "c18.aftermath_ok",
             "c18.zero_frees",
